@@ -6,7 +6,7 @@ namespace rs {
 static const char* const kNames[K_COUNT] = { "none", "mark", "pass", "fail_cpp", "fail_c", "throw_std", "throw_foreign", "print", "clock",
     "alloc", "free", "realloc", "expect_leaks", "ignore_leaks", "ptr_set", "plugin_error",
     "die_signal", "die_exit", "die_abort", "die_stop", "fork_fail", "wait_eintr", "wait_error", "wait_stopped", "wait_exited", "wait_signaled",
-    "plugin_install", "plugin_remove", "other_leak_plugin", "add_failures" };
+    "plugin_install", "plugin_remove", "other_leak_plugin", "add_failures", "nested_run" };
 const char* kindName(int k) { return k >= 0 && k < K_COUNT ? kNames[k] : "none"; }
 int kindFromName(const char* s) { for (int i = 0; i < K_COUNT; i++) if (!strcmp(s, kNames[i])) return i; return K_NONE; }
 
@@ -59,7 +59,7 @@ void buildArgv(const Desc& d, Vec<Str>& av) {
 
 // ------------------------------------------------------------------------------------------------
 struct Features {
-    bool failures, throws, cfail, pluginErr, leaks, ptrs, plugins, filters, alphaNames, exampleFilters, special_xml, special_tc, clockFaults, prints, ignored, order, junit, teamcity, overflowPtr, procReal, procSyn, abWords;
+    bool failures, throws, cfail, pluginErr, leaks, ptrs, plugins, filters, alphaNames, exampleFilters, special_xml, special_tc, clockFaults, prints, ignored, order, junit, teamcity, overflowPtr, procReal, procSyn, abWords, nested;
 };
 
 static Str pickName(Rng& r, const Features& f, const char* prefix, int idx, bool identifier) {
@@ -117,6 +117,7 @@ void generate(uint64_t seed, const Str& profile, Desc& d, bool exceptions) {
     else { f.throws = exceptions; f.cfail = true; }
 
     if (f.alphaNames && world.chance(1, 3)) f.abWords = true;
+    if ((profile == "lifecycle" || profile == "teamcity" || profile == "junit" || profile == "leaks") && world.chance(1, 6)) f.nested = true;      // some tests run a nested test through a fixture of their own
     // swarm: per run, switch individual op kinds off
     bool enFailCpp = world.chance(9, 10), enFailC = f.cfail && world.chance(8, 10), enThrow = f.throws && world.chance(7, 10);
     bool enPrint = f.prints && world.chance(1, 2), enClock = f.clockFaults && world.chance(1, 2);
@@ -182,6 +183,7 @@ void generate(uint64_t seed, const Str& profile, Desc& d, bool exceptions) {
                 unsigned w = (unsigned)world.below(100);
                 if (w < 35) { o.kind = K_PASS; o.a = (int64_t)world.below(N_PASS_KINDS); }
                 else if (w < 49) o.kind = K_MARK;
+                else if (w < 50 && f.nested && world.chance(1, 2)) { o.kind = K_NESTED_RUN; o.a = (int64_t)world.chance(1, 2); }
                 else if (w < 50) { if (enFailCpp && world.chance(1, 3)) { o.kind = K_ADD_FAILURES; static const int ns[] = { 1, 2, 3, 255, 256, 257, 512 }; o.a = ns[world.below(world.chance(1, 4) ? 7 : 3)]; o.s2 = sfmt("tk%d_", opLine); } else o.kind = K_MARK; }
                 else if (w < 60 && enPrint) { o.kind = K_PRINT; o.s2 = textWithSpecials(world, f, sfmt("pr%d_", opLine).c_str()); }
                 else if (w < 66 && enClock) { o.kind = K_CLOCK; static const int64_t deltas[] = { 1, 5, 100, 999, 1000, 60000, -1, -500, 4233600000LL, -4233600000LL, 0, 4294967295LL }; o.a = deltas[world.below(12)]; }
